@@ -1,0 +1,50 @@
+//go:build verif
+
+// Contracts for the verification machinery in /verif (comment-only; no declarations).
+// Connection upgrade: C04 (every failed upgrade closes the connection and releases its scope),
+// C10 (gater consulted at accept and after the security handshake), C01 (expected peer).
+
+package upgrader
+
+//@ func (u *upgrader) setupSecurity
+//@ prop C04 C01
+//@ ensures result2 == nil ==> result0 != nil && ghost.under(result0) == conn
+//@ ensures result2 == nil && !isServer ==> called(SecureOutbound, 0) && arg(SecureOutbound, 0, 2) == conn && arg(SecureOutbound, 0, 3) == p
+//@ ensures result2 == nil && isServer ==> called(SecureInbound, 0) && arg(SecureInbound, 0, 2) == conn && arg(SecureInbound, 0, 3) == p
+//@ ensures result2 == nil && !isServer ==> result0.RemotePeer() == p
+//@ ensures forall x int :: old(ghost.closed(x)) ==> ghost.closed(x)
+//@ ensures forall x int :: !fresh(x) ==> ghost.under(x) == old(ghost.under(x))
+//@ ensures u.connGater == old(u.connGater) && u.psk == old(u.psk)
+//@ noframe
+
+//@ func (u *upgrader) setupMuxer
+//@ prop C04
+//@ ensures forall x int :: old(ghost.closed(x)) ==> ghost.closed(x)
+//@ ensures forall x int :: !fresh(x) ==> ghost.under(x) == old(ghost.under(x))
+//@ ensures u.connGater == old(u.connGater) && u.psk == old(u.psk)
+//@ noframe
+
+//@ func (u *upgrader) upgrade
+//@ prop C04 C10 C01
+//@ ensures result1 != nil ==> ghost.closed(maconn)
+//@ ensures result1 == nil && old(u.connGater) != nil ==> called(InterceptSecured, 0) && ret(InterceptSecured, 0, 0) &&
+//@         arg(InterceptSecured, 0, 1) == dir && arg(InterceptSecured, 0, 2) == ret(setupSecurity, 0, 0).RemotePeer() && arg(InterceptSecured, 0, 3) == maconn
+//@ ensures called(InterceptSecured, 0) && !ret(InterceptSecured, 0, 0) ==> result1 != nil
+//@ ensures result1 == nil ==> called(setupSecurity, 0) && ret(setupSecurity, 0, 2) == nil && arg(setupSecurity, 0, 3) == p &&
+//@         arg(setupSecurity, 0, 4) == (dir == network.DirInbound)
+//@ ensures result1 == nil && dir == network.DirOutbound ==> p != ""
+//@ noframe
+
+//@ func (u *upgrader) Upgrade
+//@ prop C04
+//@ ensures result1 != nil ==> ghost.done(connScope) && ghost.closed(maconn)
+//@ ensures result1 == nil ==> !ghost.done(connScope) || old(ghost.done(connScope))
+//@ noframe
+
+//@ func (l *gatedMaListener) Accept
+//@ prop C04 C10
+//@ loop 0 invariant forall x int :: old(ghost.closed(x)) ==> ghost.closed(x)
+//@ ensures result2 == nil && l.connGater != nil ==> l.connGater.InterceptAccept(result0)
+//@ ensures result2 == nil ==> called(OpenConnection, 0) && ret(OpenConnection, 0, 1) == nil && result1 == ret(OpenConnection, 0, 0)
+//@ callsite OpenConnection#0 requires l.connGater == nil || l.connGater.InterceptAccept(conn)
+//@ noframe
